@@ -16,18 +16,18 @@ import (
 // JSON results. A worker that dies is reported, never waited for.
 
 type KStats struct {
-	Evaluations int64            `json:"evaluations"` // ops / grid points executed against the real code
-	Sequences   int64            `json:"sequences"`   // complete op sequences (paths) explored
-	States      []string         `json:"states"`      // distinct canonical state keys
-	NStates     int64            `json:"nstates"`     // (when keys are too many to ship) count
-	Findings    []KFinding       `json:"findings"`
-	Clauses     map[string]int64 `json:"clauses"`
-	Samples     []interface{}    `json:"samples"`
-	Incomplete  bool             `json:"incomplete"`
-	HarnessErr  string           `json:"harness_err"`
-	Validated   int64            `json:"validated"`
+	Evaluations int64              `json:"evaluations"` // ops / grid points executed against the real code
+	Sequences   int64              `json:"sequences"`   // complete op sequences (paths) explored
+	States      []string           `json:"states"`      // distinct canonical state keys
+	NStates     int64              `json:"nstates"`     // (when keys are too many to ship) count
+	Findings    []KFinding         `json:"findings"`
+	Clauses     map[string]int64   `json:"clauses"`
+	Samples     []interface{}      `json:"samples"`
+	Incomplete  bool               `json:"incomplete"`
+	HarnessErr  string             `json:"harness_err"`
+	Validated   int64              `json:"validated"`
 	Extra       map[string]float64 `json:"extra"`
-	Payload     json.RawMessage  `json:"payload,omitempty"`
+	Payload     json.RawMessage    `json:"payload,omitempty"`
 }
 
 // KFinding is a finding of a K/G engine together with its replayable input.
